@@ -35,9 +35,18 @@ type Sc struct {
 	QErr    string   `json:"qerr"`
 	Known   bool     `json:"known"`
 	UQ      string   `json:"uq"`
+	// pseudo-ID rooms: the mxid_mapping of the join: ok | missing | unsigned | wrongkey
+	Map string `json:"map"`
 	// invite: the request carries invite_room_state ("given") or not ("none")
 	Stripped string `json:"stripped"`
 	Fam      string `json:"fam,omitempty"`
+	// content the event carries besides what the handshake needs: none | tpi | unknown | unsigned
+	Extra string `json:"extra"`
+	// failing environment: ok | kr_err (key ring) | memq_err (membership querier) | rq_err (room querier)
+	Env string `json:"env"`
+	// forgery budget of the scenario and whether J retries after a refused attempt (end-to-end runs)
+	FB    int  `json:"fb"`
+	Retry bool `json:"retry"`
 }
 
 type server struct {
@@ -61,6 +70,9 @@ var servers = map[string]*server{
 	"R": mkServer("R", "r.test"),
 	"J": mkServer("J", "j.test"),
 	"X": mkServer("X", "x.test"),
+	// near-coincidences of J's name: J's name is a prefix resp. a suffix of theirs
+	"N": mkServer("N", "j.test.evil"),
+	"M": mkServer("M", "evil-j.test"),
 }
 
 func serverClass(name spec.ServerName) string {
@@ -89,6 +101,7 @@ const (
 	userB       = "@b:r.test" // second local user, never entitled
 	userC       = "@c:r.test" // creator
 	userInvitee = "@i:r.test"
+	userP       = "@p:j.test" // J's inviting user: joined, entitled to invite (only in the worlds of the invite flow)
 	userOtherLo = "@o:r.test"
 	userRemoteA = "@a:x.test"
 )
@@ -113,7 +126,7 @@ func domainless(ver string) bool { return ver == "12" || ver == "org.matrix.hydr
 func formatV1(ver string) bool   { return ver == "1" || ver == "2" }
 func restrictedSupported(ver string) bool {
 	switch ver {
-	case "8", "9", "10", "11", "12":
+	case "8", "9", "10", "11", "12", "org.matrix.msc3787", "org.matrix.msc4014", "org.matrix.hydra.11":
 		return true
 	}
 	return false
@@ -161,6 +174,9 @@ func (w *world) buildEvent(room, typ string, skey *string, sender string, conten
 }
 
 func (w *world) mustBuild(room, typ string, skey *string, sender string, content interface{}, auth []string, signer *server) gmsl.PDU {
+	if w.pseudo() {
+		skey, sender, content, signer = w.pseudoTranslate(typ, skey, sender, content)
+	}
 	w.depth++
 	var prev []string
 	if w.last != "" {
@@ -253,8 +269,12 @@ func buildBase(sc Sc) *world {
 	if !domainless(sc.Ver) {
 		users[userC] = 100
 	}
-	if sc.APL == "ok" {
-		users[userA] = 50
+	users[userP] = 50
+	switch sc.APL {
+	case "ok":
+		users[userA] = 50 // exactly the invite level
+	case "low":
+		users[userA] = 49 // one below
 	}
 	w.pl = w.mustBuild(w.room, spec.MRoomPowerLevels, strp(""), userC,
 		map[string]interface{}{"users": users, "users_default": 0, "invite": 50, "state_default": 50, "events_default": 0,
@@ -310,6 +330,9 @@ func (b *world) withUser(user, mem string) *world {
 	}
 	mc := w.creatorJoin
 	us := serverOfUser(user)
+	if user == userInvitee {
+		w.members[userP] = w.inviteThenJoin(userP, mc)
+	}
 	switch mem {
 	case "none":
 	case "join":
@@ -333,6 +356,10 @@ func (w *world) invite(user string, creatorJoin gmsl.PDU) gmsl.PDU {
 	R := servers["R"]
 	ev := w.mustBuild(w.room, spec.MRoomMember, strp(user), userC, map[string]string{"membership": "invite"},
 		w.authFor(w.create, w.pl, w.jr, creatorJoin), R)
+	if w.pseudo() { // the invited user's room key signs
+		ps := pseudoSigner(user)
+		return ev.Sign(string(ps.name), ps.keyID, ps.priv)
+	}
 	if us := serverOfUser(user); us != R {
 		ev = ev.Sign(string(us.name), us.keyID, us.priv)
 	}
@@ -369,7 +396,7 @@ func (w *world) state(withCreate bool) []gmsl.PDU {
 	if w.jr != nil {
 		out = append(out, w.jr)
 	}
-	for _, u := range []string{userC, userA, userB, w.user} {
+	for _, u := range []string{userC, userA, userB, userP, w.user} {
 		if e := w.members[u]; e != nil {
 			out = append(out, e)
 		}
@@ -395,13 +422,23 @@ func (w *world) roomClass(id string) string {
 // keys: a real KeyRing over a scripted key database
 
 type keyDB struct {
-	faults map[string]string // server class -> "expired" (valid_until_ts before t0) | "revoked" (expired_ts before t0)
+	// server class -> key-validity class relative to the event time te = t0 + 2 h of the product events:
+	// expired (valid_until_ts long before) | vu_eq (= te) | vu_p1 (= te - 1 ms) | revoked (expired_ts long before) |
+	// ex_eq (expired_ts = te) | ex_m1 (expired_ts = te + 1 ms)
+	faults map[string]string
+	fail   bool // the database itself fails
 }
+
+// te is the origin_server_ts of the events the product families build
+var te = t0.Add(2 * time.Hour)
 
 func (db *keyDB) FetcherName() string { return "c15db" }
 
 func (db *keyDB) FetchKeys(ctx context.Context, reqs map[gmsl.PublicKeyLookupRequest]spec.Timestamp) (map[gmsl.PublicKeyLookupRequest]gmsl.PublicKeyLookupResult, error) {
 	out := map[gmsl.PublicKeyLookupRequest]gmsl.PublicKeyLookupResult{}
+	if db.fail {
+		return nil, errors.New("c15: key database unavailable")
+	}
 	for req := range reqs {
 		for cls, s := range servers {
 			if req.ServerName == s.name && req.KeyID == s.keyID {
@@ -410,9 +447,19 @@ func (db *keyDB) FetchKeys(ctx context.Context, reqs map[gmsl.PublicKeyLookupReq
 				switch db.faults[cls] {
 				case "expired":
 					vu = spec.AsTimestamp(t0.Add(-time.Hour))
+				case "vu_eq":
+					vu = spec.AsTimestamp(te)
+				case "vu_p1":
+					vu = spec.AsTimestamp(te) - 1
 				case "revoked":
 					vu = gmsl.PublicKeyNotValid
 					ex = spec.AsTimestamp(t0.Add(-time.Hour))
+				case "ex_eq":
+					vu = gmsl.PublicKeyNotValid
+					ex = spec.AsTimestamp(te)
+				case "ex_m1":
+					vu = gmsl.PublicKeyNotValid
+					ex = spec.AsTimestamp(te) + 1
 				}
 				out[req] = gmsl.PublicKeyLookupResult{VerifyKey: gmsl.VerifyKey{Key: spec.Base64Bytes(s.pub)},
 					ExpiredTS: ex, ValidUntilTS: vu}
@@ -424,6 +471,14 @@ func (db *keyDB) FetchKeys(ctx context.Context, reqs map[gmsl.PublicKeyLookupReq
 
 func (db *keyDB) StoreKeys(ctx context.Context, r map[gmsl.PublicKeyLookupRequest]gmsl.PublicKeyLookupResult) error {
 	return nil
+}
+
+var keyClasses = map[string]bool{"expired": true, "vu_eq": true, "vu_p1": true, "revoked": true, "ex_eq": true, "ex_m1": true}
+
+func keyRingFor(sc Sc, faults map[string]string) *gmsl.KeyRing {
+	r := keyRing(faults)
+	r.KeyDatabase.(*keyDB).fail = sc.Env == "kr_err"
+	return r
 }
 
 func keyRing(faults map[string]string) *gmsl.KeyRing {
@@ -484,6 +539,9 @@ func sameSignedPart(before, after []byte) (bool, string) {
 	_ = json.Unmarshal(a["signatures"], &sa)
 	_ = json.Unmarshal(b["signatures"], &sb)
 	for srv, ks := range sa {
+		if srv == string(servers["R"].name) {
+			continue // the local server signs afresh: whatever stood under its name may be replaced
+		}
 		for k, v := range ks {
 			if sb[srv][k] != v {
 				return false, fmt.Sprintf("signature %s/%s of the submitted event is missing or changed", srv, k)
@@ -547,9 +605,15 @@ func userIDQuerier(mode string) spec.UserIDForSender {
 	}
 }
 
-type membershipQuerier struct{ mem string }
+type membershipQuerier struct {
+	mem  string
+	fail bool
+}
 
 func (m membershipQuerier) CurrentMembership(ctx context.Context, roomID spec.RoomID, senderID spec.SenderID) (string, error) {
+	if m.fail {
+		return "", errors.New("c15: membership unavailable")
+	}
 	if m.mem == "none" {
 		return "", nil
 	}
@@ -573,8 +637,17 @@ func (q restrictedQuerier) CurrentStateEvent(ctx context.Context, roomID spec.Ro
 		if w.sc.QErr == "pl_missing" {
 			return nil, nil
 		}
+		if w.sc.QErr == "pl_err" {
+			return nil, errors.New("c15: power levels unavailable")
+		}
 		return w.pl, nil
 	case spec.MRoomCreate:
+		if w.sc.QErr == "create_nil" {
+			return nil, nil
+		}
+		if w.sc.QErr == "create_err" {
+			return nil, errors.New("c15: create event unavailable")
+		}
 		return w.create, nil
 	}
 	return nil, nil
@@ -598,6 +671,8 @@ func (q restrictedQuerier) RestrictedRoomJoinInfo(ctx context.Context, roomID sp
 			return &gmsl.RestrictedRoomJoinInfo{LocalServerInRoom: false}, nil
 		case "info_err":
 			return nil, errors.New("c15: room info unavailable")
+		case "info_nil":
+			return nil, nil
 		case "nouser":
 			return &gmsl.RestrictedRoomJoinInfo{LocalServerInRoom: true, UserJoinedToRoom: false, JoinedUsers: []gmsl.PDU{w.listA}}, nil
 		case "empty":
@@ -614,9 +689,15 @@ func (q restrictedQuerier) RestrictedRoomJoinInfo(ctx context.Context, roomID sp
 	return &gmsl.RestrictedRoomJoinInfo{LocalServerInRoom: false}, nil
 }
 
-type roomQuerier struct{ known bool }
+type roomQuerier struct {
+	known bool
+	fail  bool
+}
 
 func (r roomQuerier) IsKnownRoom(ctx context.Context, roomID spec.RoomID) (bool, error) {
+	if r.fail {
+		return false, errors.New("c15: room information unavailable")
+	}
 	return r.known, nil
 }
 
